@@ -11,6 +11,19 @@ NOTE = ("Trusted: Lean 4.33 kernel (axioms audited per theorem to lie within pro
         "types; IEEE rounding is covered by the bit-exact tie plus the exact-rational oracle, not by proof.")
 
 CLAIMED = {
+    "C04": dict(
+        text=("Kernel-checked theorems: each of the 8 unrolled kernel macros of vops.rs (8-at-a-time body + remainder) equals List.map / List.zipWith at every "
+              "length, for every element type and operator, with `none` (panic) on length mismatch and the scalar on the correct side; vpowi's exponent-2/3 fast path "
+              "in full chunks is consistent with powi = x^n in every commutative monoid (square-and-multiply = x^n for every i32 exponent); every one of the 44+44 "
+              "Vector/Matrix operator impl rows and 62 map rows, re-extracted from the macro invocations in vec.rs/matrix.rs/vops.rs on every run, is proved by `decide` "
+              "to call the kernel generated from its own operator token with arguments in order (self, other), the right shape source and (for matrix compound "
+              "assignment) a shape assert, so each operator form computes the scalar op at each position with shape preserved; reductions in exact arithmetic: "
+              "sum8 = sum, dot8 = sum of products, prod, norm = sqrt(sum x^2), max, inf_norm, logsumexp = log sum exp x_i and logmeanexp over R with all shifted "
+              "exponents <= 0 and 1 <= sum exp(x_i - m) <= n (no overflow at any magnitude). Tied bit for bit to the Rust code on all lengths 0..40 and random lengths "
+              "to 1e4 for every form, map and special value; exact element-wise oracle and worst-case gamma_n-bound oracles for the reductions (rounding bounds are "
+              "checked, not proved)."),
+        design="DESIGN.md §6 C04",
+        technique="Lean 4 proof (functional induction over the 8-way pattern, decide over translated macro wiring, real analysis for logsumexp) + bit-exact correspondence"),
     "C05": dict(
         text=("Kernel-checked theorems over any commutative semiring: for each of the four transpose-flag pairs the model of `matmul` returns "
               "a value iff the inner dimensions agree, of length m*n, whose (i,j) entry is sum_k op(A)[i,k]*op(B)[k,j]; non-conformable or malformed "
@@ -21,6 +34,17 @@ CLAIMED = {
               "equality oracle) and random real shapes to 64 (exact dyadic oracle with the rigorous l*2^-52*sum|a||b| bound)."),
         design="DESIGN.md §6 C05",
         technique="Lean 4 proof (loop-nest projection, Finset sums over CommSemiring, decide over translated wiring) + bit-exact correspondence"),
+    "C06": dict(
+        text=("Kernel-checked theorems over any field with exp/ln/sqrt abstract: entry formulas of the score (compute_dbeta) and information (compute_ddbeta); the penalty step "
+              "adds alpha*beta_j to components j >= 1 only (intercept unpenalised) and alpha to the information diagonal; for any exact solver one scoring pass leaves beta "
+              "unchanged iff the ridge-penalised score equations hold at mu = g^-1(X beta + offset); the six family tables (link, derivative, variance, deviance terms), "
+              "Gaussian deviance = residual sum of squares and Gaussian fixed points = weighted ridge normal equations; `fit` returns Err iff not converged within the budget "
+              "and on Ok the last two penalised deviances differ relatively by < tolerance; accessor formulas (dispersion, covariance = dispersion * inverse information, "
+              "standard errors, predict = inverse link of x.beta + offset, aic, bic); score, information, deviance and every iterate of the loop are invariant under any "
+              "permutation of the observations. PARTIAL: that the convergence test implies a small score, rounding, and solver correctness (hypothesis; C01) are not proved - "
+              "they are decided per run by the bit-exact tie (all reply fields) plus a 50-digit mpmath stationarity/inference oracle."),
+        design="DESIGN.md §6 C06",
+        technique="Lean 4 proof (entry-wise sum algebra, fixed-point characterisation, induction over scoring iterations, permutation of Finset sums) + bit-exact correspondence"),
     "C07": dict(
         text=("Kernel-checked theorems: the model of `trapz` equals Mathlib's `trapezoidal_integral` for every n, hence is exact for affine integrands, linear, "
               "antisymmetric in the limits and obeys Mathlib's C2 error bound |b-a|^3 max|f''|/(12 n^2); quad5 is linear/antisymmetric for any table and, for the "
